@@ -135,8 +135,15 @@ def run(ctx, replay=None):
         if limit is not None:
             def pre():
                 resource.setrlimit(resource.RLIMIT_FSIZE, (limit, limit))
-        p = subprocess.run(["strace", "-f", "-e", "trace=none"] + (["-e", "inject=" + spec] if spec else []) + sc.cmd(d),
-                           capture_output=True, text=True, timeout=120, preexec_fn=pre)
+        # (strace tampers only with calls that it traces: "-e trace=none" would switch the injection off)
+        # its log goes to the pipe: a file would fall under the file-size limit that some cases set
+        p = subprocess.run(["strace", "-f", "-e", "trace=" + CALLS] + (["-e", "inject=" + spec] if spec else []) + sc.cmd(d),
+                           capture_output=True, text=True, errors="replace", timeout=120, preexec_fn=pre)
+        text = p.stderr
+        if spec and how == "killed" and "killed by SIGKILL" not in text:
+            raise vlib.Inconclusive("the kill %r did not happen in scenario %s (%s)" % (spec, sc.name, what))
+        if spec and how == "error" and "(INJECTED)" not in text:
+            raise vlib.Inconclusive("the error %r was not injected in scenario %s (%s)" % (spec, sc.name, what))
         result = ""
         if how != "killed":
             try:
